@@ -478,7 +478,7 @@ def synth_ff_text(rnd):
     for li in range(nlinks):
         kind = rnd.choice(['bond+', 'bond+', 'angle', 'dihedral', 'gt', 'star', 'nonedge', 'pattern', 'molmeta', 'replace',
                            'remove', 'remove', 'override', 'explicit-order', 'choice', 'geom', 'star-intra', 'gt-intra', 'same-order',
-                           'three-orders', 'three-orders', 'geom-angle'])
+                           'three-orders', 'three-orders', 'geom-angle', 'pattern-single', 'single'])
         out.append('[ link ]')
         if kind == 'bond+':
             if rnd.random() < 0.5:
@@ -520,6 +520,13 @@ def synth_ff_text(rnd):
             out += ['[ bonds ]', 'A B 1 0.31 %d' % rnd.choice([2000, 2100]), '[ non-edges ]'] + ne
         elif kind == 'pattern':
             out += ['[ angles ]', 'A +A +B 2 100 10', '[ patterns ]', 'A +A {"resname": "XA"} +B', 'A +A {"resname": "XB"} +B']
+        elif kind == 'pattern-single':
+            # a link of ONE atom whose [ patterns ] express an OR (retype A in residues XB or XC): it applies only where a pattern holds
+            out += ['[ atoms ]', 'A {"replace": {"marker": %d}}' % (100 + li), '[ position_restraints ]', 'A 1 1000 1000 %d' % (100 + li),
+                    '[ patterns ]', 'A {"resname": "XB"}', 'A {"resname": "XC"}']
+        elif kind == 'single':
+            # ... and one without patterns, restricted by a link-wide attribute
+            out += ['resname "XA"', '[ atoms ]', 'B {"replace": {"marker": %d}}' % (200 + li)]
         elif kind == 'molmeta':
             out += ['[ molmeta ]', 'flag true', '[ bonds ]', 'A +A 1 0.40 700 {"version": 2}']
         elif kind == 'replace':
